@@ -205,3 +205,176 @@ func CassandraLZ4EncodeLiteral(src []byte) []byte {
 	}
 	return append(out, src...)
 }
+
+// ---- reference encoders that use back-references ----------------------------------------
+//
+// They exist to feed the driver's decoders with well-formed streams of a different shape
+// than the ones the driver's own encoders produce (overlapping copies, every tag kind,
+// non-minimal length encodings, far offsets). knob is any PRNG-like source of choices.
+
+type Knob interface{ Intn(n int) int }
+
+func findMatches(src []byte, minLen, maxOff int, fn func(litStart, pos, off, l int) (consumed int)) (tail int) {
+	table := map[uint32]int{}
+	lit := 0
+	i := 0
+	for i+4 <= len(src) {
+		k := binary.LittleEndian.Uint32(src[i:])
+		cand, ok := table[k]
+		table[k] = i
+		if ok && i-cand <= maxOff {
+			l := 0
+			for i+l < len(src) && src[cand+l] == src[i+l] {
+				l++
+			}
+			if l >= minLen {
+				used := fn(lit, i, i-cand, l)
+				if used > 0 {
+					i += used
+					lit = i
+					continue
+				}
+			}
+		}
+		i++
+	}
+	return lit
+}
+
+func snappyLiteral(out []byte, b []byte, k Knob) []byte {
+	for len(b) > 0 {
+		n := len(b)
+		if k.Intn(4) == 0 && n > 1 {
+			n = 1 + k.Intn(n)
+		}
+		width := 0
+		switch {
+		case n <= 60:
+			width = 0
+		case n <= 1<<8:
+			width = 1
+		case n <= 1<<16:
+			width = 2
+		case n <= 1<<24:
+			width = 3
+		default:
+			width = 4
+		}
+		if k.Intn(3) == 0 && width < 4 {
+			width += 1 + k.Intn(4-width) // non-minimal but valid
+		}
+		if width == 0 {
+			out = append(out, byte(n-1)<<2)
+		} else {
+			out = append(out, byte(59+width)<<2)
+			for j := 0; j < width; j++ {
+				out = append(out, byte((n-1)>>(8*uint(j))))
+			}
+		}
+		out = append(out, b[:n]...)
+		b = b[n:]
+	}
+	return out
+}
+
+// SnappyEncodeRef encodes src as a valid snappy block with copies.
+func SnappyEncodeRef(src []byte, k Knob) []byte {
+	var out []byte
+	var lb [10]byte
+	out = append(out, lb[:binary.PutUvarint(lb[:], uint64(len(src)))]...)
+	maxOff := []int{1, 7, 2047, 65535, 1 << 20, 1 << 30}[k.Intn(6)]
+	tail := findMatches(src, 1+k.Intn(8), maxOff, func(lit, pos, off, l int) int {
+		if lit < pos {
+			out = snappyLiteral(out, src[lit:pos], k)
+		}
+		left := l
+		for left > 0 {
+			n := left
+			if n > 64 {
+				n = 64
+			}
+			if k.Intn(5) == 0 {
+				n = 1 + k.Intn(n)
+			}
+			switch {
+			case n >= 4 && n <= 11 && off < 2048 && k.Intn(3) != 0:
+				out = append(out, byte(off>>8)<<5|byte(n-4)<<2|1, byte(off))
+			case off < 65536 && k.Intn(6) != 0:
+				out = append(out, byte(n-1)<<2|2, byte(off), byte(off>>8))
+			default:
+				out = append(out, byte(n-1)<<2|3, byte(off), byte(off>>8), byte(off>>16), byte(off>>24))
+			}
+			left -= n
+		}
+		return l
+	})
+	if tail < len(src) {
+		out = snappyLiteral(out, src[tail:], k)
+	}
+	return out
+}
+
+func lz4Len(out []byte, n int) []byte {
+	for n >= 255 {
+		out = append(out, 255)
+		n -= 255
+	}
+	return append(out, byte(n))
+}
+
+// LZ4BlockEncodeRef encodes src as one valid LZ4 block (end-of-block rules respected:
+// the last five bytes are literals and the last match starts 12 or more bytes before the end).
+func LZ4BlockEncodeRef(src []byte, k Knob) []byte {
+	var out []byte
+	emit := func(lits []byte, off, ml int) {
+		tok := byte(0)
+		if len(lits) >= 15 {
+			tok = 0xf0
+		} else {
+			tok = byte(len(lits)) << 4
+		}
+		if ml > 0 {
+			if ml-4 >= 15 {
+				tok |= 15
+			} else {
+				tok |= byte(ml - 4)
+			}
+		}
+		out = append(out, tok)
+		if len(lits) >= 15 {
+			out = lz4Len(out, len(lits)-15)
+		}
+		out = append(out, lits...)
+		if ml > 0 {
+			out = append(out, byte(off), byte(off>>8))
+			if ml-4 >= 15 {
+				out = lz4Len(out, ml-4-15)
+			}
+		}
+	}
+	maxOff := []int{1, 3, 255, 65535}[k.Intn(4)]
+	tail := findMatches(src, 4, maxOff, func(lit, pos, off, l int) int {
+		if pos > len(src)-12 {
+			return 0
+		}
+		if pos+l > len(src)-5 {
+			l = len(src) - 5 - pos
+		}
+		if k.Intn(5) == 0 && l > 4 {
+			l = 4 + k.Intn(l-3)
+		}
+		if l < 4 {
+			return 0
+		}
+		emit(src[lit:pos], off, l)
+		return l
+	})
+	emit(src[tail:], 0, 0)
+	return out
+}
+
+func CassandraLZ4EncodeRef(src []byte, k Knob) []byte {
+	out := make([]byte, 4)
+	binary.BigEndian.PutUint32(out, uint32(len(src)))
+	return append(out, LZ4BlockEncodeRef(src, k)...)
+}
